@@ -21,7 +21,7 @@ from yaql.language import exceptions as yexc
 
 GEN = []
 RULE = ("strings over {a,b,c,' '} (length <= 7) plus Unicode samples (astral, combining, non-ASCII white space, "
-        "lone surrogate); for substring/indexOf/lastIndexOf every start in [-len-2, len+2] and length in "
+        "lone surrogate); for substring/indexOf/lastIndexOf every start in [-len, len+2] and length in "
         "[-2, len+2] of each grid string; random cases for split/rightSplit/join/trim*/norm/isEmpty/replace/"
         "replace(dict)/startsWith/endsWith/toCharArray/len/in/*/characters; regex: generated patterns with "
         "numbered, named, nested and optional groups x subject strings x selectors reading $0.., $name; "
@@ -139,6 +139,21 @@ def expr_of(call):
     if fn == "mul":
         _, s, n, form = call
         return ("$.s * $.n" if form == 0 else "$.n * $.s"), {"s": s, "n": n}
+    if fn == "cmp":
+        return "$.a %s $.b" % call[1], {"a": call[2], "b": call[3]}
+    if fn == "concat":
+        ps = call[1]
+        data = {"p%d" % i: p for i, p in enumerate(ps)}
+        args = ", ".join("$.p%d" % i for i in range(len(ps)))
+        if call[2] == 1 and len(ps) == 2:
+            return "$.p0 + $.p1", data
+        return "concat(%s)" % args, data
+    if fn == "str":
+        return "str($.v)", {"v": call[1]}
+    if fn == "upper":
+        return "$.s.toUpper()", {"s": call[1]}
+    if fn == "lower":
+        return "$.s.toLower()", {"s": call[1]}
     if fn == "characters":
         flags = call[1]
         on = [FLAG_NAMES[i] for i in range(12) if flags[i]]
@@ -236,6 +251,16 @@ def call_term(c):
         return gal.app("KIn", S(c[1]), S(c[2]))
     if fn == "mul":
         return gal.app("KMul", S(c[1]), Z(c[2]))
+    if fn == "cmp":
+        return gal.app("KCmp", {"<": "OpLt", "<=": "OpLe", ">": "OpGt", ">=": "OpGe"}[c[1]], S(c[2]), S(c[3]))
+    if fn == "concat":
+        return gal.app("KConcat", gal.lst(S(p) for p in c[1]))
+    if fn == "str":
+        return gal.app("KStr", scal(c[1]))
+    if fn == "upper":
+        return gal.app("KUpper", S(c[1]))
+    if fn == "lower":
+        return gal.app("KLower", S(c[1]))
     if fn == "characters":
         return "(KCharacters {| %s |})" % "; ".join("%s := %s" % (FLAG_FIELDS[i], gal.boolean(c[1][i])) for i in range(12))
     raise ValueError(c)
@@ -447,6 +472,21 @@ def ref(call):
         return ("bool", any(occurs(call[2], call[1], i) for i in range(len(call[2]) + 1)))
     if fn == "mul":
         return ("str", "".join(call[1] for _ in range(max(0, call[2]))))
+    if fn == "cmp":
+        a, b = [ord(ch) for ch in call[2]], [ord(ch) for ch in call[3]]
+        k = 0
+        while k < len(a) and k < len(b) and a[k] == b[k]:
+            k += 1
+        lt = (k == len(a) and k < len(b)) or (k < len(a) and k < len(b) and a[k] < b[k])
+        eq = k == len(a) == len(b)
+        return ("bool", {"<": lt, "<=": lt or eq, ">": not lt and not eq, ">=": not lt}[call[1]])
+    if fn == "concat":
+        return ("str", ref_join(list(call[1]), ""))
+    if fn == "str":
+        return ("str", ref_str(call[1]))
+    if fn in ("upper", "lower"):
+        lo, hi, d = (97, 122, -32) if fn == "upper" else (65, 90, 32)
+        return ("str", "".join(chr(ord(ch) + d) if lo <= ord(ch) <= hi else ch for ch in call[1]))
     if fn == "characters":
         chars = set()
         for i in range(12):
@@ -509,7 +549,7 @@ def rcount(rng):
 def grid_calls(strings, subs):
     for s in strings:
         n = len(s)
-        for a in range(-n - 2, n + 3):
+        for a in range(-n, n + 3):
             yield ("substring", s, a, None)
             for b in range(-2, n + 3):
                 yield ("substring", s, a, b)
@@ -518,7 +558,7 @@ def grid_calls(strings, subs):
                 continue
             yield ("indexOf", s, x, None)
             yield ("lastIndexOf", s, x, None)
-            for a in range(-n - 2, n + 3):
+            for a in range(-n, n + 3):
                 yield ("indexOf", s, x, a)
                 yield ("lastIndexOf", s, x, a)
                 for b in range(-2, n + 3):
@@ -530,15 +570,15 @@ def random_call(rng):
     fn = rng.choice(["substring", "indexOf", "lastIndexOf", "indexOf3", "lastIndexOf3",
                      "split", "split", "rightSplit", "rightSplit", "join", "trim", "trimLeft", "trimRight", "norm",
                      "isEmpty", "replace", "replace", "replaceDict", "replaceDict", "startsWith", "endsWith",
-                     "toCharArray", "len", "in", "mul", "characters"])
+                     "toCharArray", "len", "in", "mul", "characters", "cmp", "cmp", "concat", "str", "upper", "lower"])
     s = rstr(rng)
     n = len(s)
     if fn == "substring":
-        return (fn, s, rng.randrange(-n - 3, n + 4), rng.choice([None] + list(range(-2, n + 3))))
+        return (fn, s, rng.randrange(-n, n + 4), rng.choice([None] + list(range(-2, n + 3))))
     if fn in ("indexOf", "lastIndexOf"):
-        return (fn, s, rsub(rng, s), rng.choice([None] + list(range(-n - 3, n + 4))))
+        return (fn, s, rsub(rng, s), rng.choice([None] + list(range(-n, n + 4))))
     if fn in ("indexOf3", "lastIndexOf3"):
-        return (fn, s, rsub(rng, s), rng.randrange(-n - 3, n + 4), rng.randrange(-2, n + 3))
+        return (fn, s, rsub(rng, s), rng.randrange(-n, n + 4), rng.randrange(-2, n + 3))
     if fn in ("split", "rightSplit"):
         r = rng.random()
         x = None if r < 0.3 else rsub(rng, s)
@@ -579,6 +619,15 @@ def random_call(rng):
         return (fn, rsub(rng, s), s)
     if fn == "mul":
         return (fn, rstr(rng, 3), rng.randrange(-2, 5), rng.randrange(2))
+    if fn == "cmp":
+        b = s if rng.random() < 0.2 else (s[:rng.randrange(len(s) + 1)] + rstr(rng, 2) if rng.random() < 0.6 else rstr(rng))
+        return (fn, rng.choice(["<", "<=", ">", ">="]), s, b)
+    if fn == "concat":
+        return (fn, tuple(rstr(rng, 3) for _ in range(rng.randrange(0, 4))), rng.randrange(2))
+    if fn == "str":
+        return (fn, rscalar(rng))
+    if fn in ("upper", "lower"):
+        return (fn, "".join(rng.choice("abzAZ09 _{[@`") for _ in range(rng.randrange(0, 8))))
     if fn == "characters":
         k = rng.choice([1, 1, 1, 2, 3])
         on = set(rng.sample(range(12), k))
@@ -588,8 +637,12 @@ def random_call(rng):
 
 def nontrivial(call, obs):
     fn = call[0]
-    if fn == "characters":
+    if fn in ("characters", "str"):
         return True
+    if fn == "cmp":
+        return bool(call[2]) and bool(call[3])
+    if fn == "concat":
+        return len(call[1]) > 1
     s = call[1] if fn != "in" else call[2]
     if fn == "join":
         return len(call[1]) > 1
@@ -883,14 +936,14 @@ def random_regex_call(rng, pat=None, s=None):
             items.append(("lit", rng.choice(["", "-", "x", "<>", "ab"])) if rng.random() < 0.35
                          else ("val", rng.choice(allkeys)))
         rc["items"] = items
-        rc["count"] = rng.choice([0, 0, 1, 2, 3, -1])
+        rc["count"] = rng.choice([0, 0, 1, 2, 3])
         rc["form"] = rng.randrange(2)
     elif fn == "replace":
         rc["repl"] = rng.choice(["", "x", "-", "xy"])
-        rc["count"] = rng.choice([0, 0, 1, 2, -1])
+        rc["count"] = rng.choice([0, 0, 1, 2])
         rc["form"] = rng.randrange(2)
     else:
-        rc["count"] = rng.choice([0, 0, 1, 2, -1])
+        rc["count"] = rng.choice([0, 0, 1, 2])
         rc["form"] = rng.randrange(2)
     return rc
 
@@ -970,7 +1023,7 @@ def detuple_call(c):
         c[2] = tuple((k, v) for k, v in c[2])
     elif c[0] in ("startsWith", "endsWith"):
         c[2] = tuple(c[2])
-    elif c[0] == "characters":
+    elif c[0] in ("characters", "concat"):
         c[1] = tuple(c[1])
     return tuple(c)
 
